@@ -1,7 +1,6 @@
 package server
 
 import (
-	"context"
 	"net/http"
 	"net/url"
 
@@ -124,7 +123,7 @@ func HarnessStop503() {
 	req := &http.Request{Method: method, URL: &url.URL{Path: path}, Header: http.Header{}, Host: "h"}
 	if vChoose("strip_ctx", 2) == 1 {
 		// as Router.ServeHTTP attaches it for a service deployed under /app with prefix stripping
-		req = req.WithContext(context.WithValue(req.Context(), contextKeyRoutingContext, &routingContext{MatchedPrefix: "/app"}))
+		req = vWithStripContext(req, "/app")
 	}
 	root := vRootChain(http.HandlerFunc(cur.ServeHTTP))
 	w := vNewRecorder()
